@@ -302,7 +302,7 @@ theorem C13_codec_roundtrip_types (X : Ext) (t : Ty) (hde : (deDef t).isSome = t
     have := decodeDoc_encodeDoc_nested X o i ns sd v hwf hfit
     simpa [encodeDoc, encode_serView, encAttrs_serView] using this
 
-/-- the hand-written `impl Deserialize for GetBucketLocationOutput` (xml/mod.rs, since d00ca17) *is* the generated
+/-- the hand-written `impl Deserialize for GetBucketLocationOutput` (xml/mod.rs, since 7f2ce46) *is* the generated
 root reader `named_element(tag, content)` at a string, followed by `locationVal` (the empty constraint is `None`) -/
 theorem decodeDoc_location (X : Ext) (tag : Bytes) (s : Sch) (evs : List Ev) :
     decodeDoc X (.location tag) s evs =
@@ -463,7 +463,7 @@ theorem C13_decode_strict (X : Ext) :
 
 /-- **An accepted document has exactly one document element** (XML 1.0 production [1]; the clause
 `document-element` of well-formedness) — also under the hand-written root of `GetBucketLocationOutput`, whose document is
-the member element `LocationConstraint` itself (FULL since the repair d00ca17 of xml/mod.rs; until then the decoder
+the member element `LocationConstraint` itself (FULL since the repair 7f2ce46 of xml/mod.rs; until then the decoder
 looped over top-level elements and accepted the empty document and `<LocationConstraint/>` followed by a second
 element: finding `xml-illformed-accepted:document-element`, now fixed). For every token sequence `q` of a document that
 `GetBucketLocationOutput::deserialize` + `expect_eof` accept: the events are
@@ -486,7 +486,7 @@ theorem C13_accepted_documents_wellformed_document_element (X : Ext) (root : Byt
     exact ⟨pre, a, body, post, mid, tail, w, h1, h2, h3, h4, h5, h6, h.symm⟩
 
 /-- **The comments of an accepted document are well-formed** (XML 1.0 production [15]; the clause `comment` of
-well-formedness; FULL since the repair ce2599c: `Deserializer::new` switches quick-xml's `check_comments` on — until then
+well-formedness; FULL since the repair 5bbd9e0: `Deserializer::new` switches quick-xml's `check_comments` on — until then
 `<!-- a -- b -->` and `<!-- a --->` were skipped like any comment: finding `xml-illformed-accepted:comment`, now fixed).
 For every document (any bytes):
 
@@ -503,7 +503,7 @@ theorem C13_accepted_documents_wellformed_comment (X : Ext) :
   ⟨fun _ _ _ _ h => markup_comment h, fun _ _ _ _ h => decodeDoc_named_no_err X h⟩
 
 /-- **The character data of an accepted document holds no `]]>`** (XML 1.0 production [14]; the clause `cdata-end`
-of well-formedness; FULL since the repair fc97754 of `Deserializer::read_event` — until then a text with `]]>` passed like
+of well-formedness; FULL since the repair 5946f21 of `Deserializer::read_event` — until then a text with `]]>` passed like
 any other: finding `xml-illformed-accepted:cdata-end`, now fixed). For every token sequence `q` of a document, at every
 depth `d`, accepted or not: no text event the deserialiser is handed — read as the content of a scalar or skipped
 between elements — holds `]]>` (the specification's test, `XmlSpec.containsSub`, which is what `XmlSpec.charData`
@@ -516,7 +516,7 @@ theorem C13_accepted_documents_wellformed_cdata_end (q : List QEv) (d : Nat) :
   ⟨deEventsAt_text_clean q d, hasCdataEnd_eq⟩
 
 /-- **The processing instructions of an accepted document are well-formed** (XML 1.0 productions [16], [17]; the
-clause `pi-target` of well-formedness; FULL since the repair 66c0f09 of `Deserializer::read_event` — until then `<??>`,
+clause `pi-target` of well-formedness; FULL since the repair 61061ab of `Deserializer::read_event` — until then `<??>`,
 `<?1a?>` and `<?XML?>` were skipped like any processing instruction: finding `xml-illformed-accepted:pi-target`, now
 fixed). For every token sequence `q` of a document that is accepted: every processing instruction in it — wherever it
 stands: in the prolog, between elements, inside character data, behind the root — has a body `target rest` whose
